@@ -33,6 +33,9 @@ impl Check for C15 {
             (true, true) => run2::<f32>(src, obs),
         }
     }
+    fn regressions(&self) -> Vec<(&'static str, fn() -> Result<(), Fail>)> {
+        vec![("d5-pow-not-scale-invariant", super::regress::d5_pow_not_scale_invariant)]
+    }
     fn rule(&self) -> String {
         "metamorphic twins of the same concrete type for every strategy and boundary selection, in range and extrapolated: (a) data (and \
          FirstDeriv/SecondDeriv values) x 2^k, k in -20..20: results x 2^k bit-for-bit; (b) data negated: results negated bit-for-bit; (c) axis \
@@ -347,6 +350,13 @@ fn run1<T: Flt>(src: &mut Src, obs: &mut Obs) -> Result<(), Fail> {
         }
         None => None,
     };
+    obs.describe(|| {
+        let mut d = c.describe::<T>();
+        d["relation"] = json!(reln);
+        d["factor"] = json!(fac);
+        d["queries"] = ffs::<T>(&qs, 4);
+        d
+    });
     let (sc_a, sc_b, sc_o) = if exact {
         (vec![], vec![], vec![])
     } else {
@@ -391,13 +401,6 @@ fn run1<T: Flt>(src: &mut Src, obs: &mut Obs) -> Result<(), Fail> {
         obs.key(&(rel, fac.to_bits()));
         obs.key_f64s(&qt);
     }
-    obs.describe(|| {
-        let mut d = c.describe::<T>();
-        d["relation"] = json!(reln);
-        d["factor"] = json!(fac);
-        d["queries"] = ffs::<T>(&qs, 4);
-        d
-    });
     Ok(())
 }
 
